@@ -18,6 +18,24 @@ type c07Stats struct {
 
 var c07 c07Stats
 
+// S-3bids: four providers bid on one order, so that creating the lease has several losing bids to settle.
+func sc3Bids() Scenario {
+	sc := Scenario{Name: "S-3bids", GP: GenesisParams{DeploymentMinDeposit: 10, BidMinDeposit: 5, Funds: 1000, StartHeight: 5}}
+	provs := []string{"P1", "P2", "B", "U1"}
+	for _, p := range provs {
+		sc.Preamble = append(sc.Preamble, aProvider("CreateProvider", p, nil, "none"))
+	}
+	sc.Preamble = append(sc.Preamble, aCreateDeployment("T1", 1, 1, 3, 10, noReq))
+	var al []Action
+	for i, p := range provs {
+		b := bidRef{"T1", 1, 1, 1, p}
+		al = append(al, aCreateBid(b, int64(1+i%3), 5), aBidOp("CreateLease", b), aBidOp("CloseBid", b))
+	}
+	al = append(al, aNext(1), aCloseDeployment("T1", 1), aGroup("CloseGroup", "T1", 1, 1))
+	sc.Alphabet = al
+	return sc
+}
+
 type chkC07 struct{}
 
 func (chkC07) Name() string                                  { return "C07" }
@@ -96,7 +114,8 @@ func (chkC07) CheckTrans(t *TransCtx) (out []Viol) {
 			kmax = 6
 		}
 		for k := uint32(1); k <= kmax; k++ {
-			for off := uint32(1); off < nstarts; off++ {
+			// per-iteration pass: the 8 intra-bucket offsets (start bucket 0) of iteration #k alone
+			for off := uint32(1); off < 8; off++ {
 				fp, _, _, res := run(off, k)
 				if fp != base {
 					out = append(out, Viol{"C07.deterministic", "map-order:" + t.Act.Kind, fmt.Sprintf("%s: result depends on the order of map iteration #%d (offset %d vs 0; ok=%v err=%q)", t.Act.Name, k, off, res.OK, res.Err)})
